@@ -3,7 +3,7 @@
    (streaming parser, fixes F6+F7 applied), spec: model/MultipartRef.v ([ref],
    the one-piece scanner built on [findb] only, and [wf_prefix]). *)
 From Verif Require Import lib.Base lib.Str gen.Gen model.MultipartRef model.Multipart
-  proofs.C06_pattern proofs.C06_model_pins proofs.C06_core proofs.C06_global.
+  proofs.C06_pattern proofs.C06_model_pins proofs.C06_core proofs.C06_global proofs.C06_wf.
 
 (* the regular expression re-implemented by Multipart.hsearch is the one in the source *)
 Theorem C06_end_headers_regex_pinned :
@@ -136,6 +136,40 @@ Theorem C06_split_independent_pairwise :
 Proof. exact split_independent_pairwise. Qed.
 Print Assumptions C06_split_independent_pairwise.
 
+(* ---- the hypothesis: which bodies are well-formed prefixes ---- *)
+
+(* wf_prefix is closed under taking prefixes ("... and all their prefixes"). *)
+Theorem C06_wf_prefix_closed :
+  forall (B p c : bytes), wf_prefix B (p ++ c) -> wf_prefix B p.
+Proof. exact wf_prefix_closed. Qed.
+Print Assumptions C06_wf_prefix_closed.
+
+(* Every prefix of every body of the multipart grammar is a wf_prefix.
+   (proofs/C06_wf.v)  mp_body B lead parts epilogue =
+       [CRLF if lead] -- B ( CRLF join(CRLF, lines) CRLFCRLF data CRLF -- B )* -- epilogue
+   part_ok: at least one header line, every line non-empty and free of CR and LF,
+   the data does not contain CRLF--B; nothing is asked of the boundary beyond
+   "no CR", of the data beyond that, or of the epilogue. *)
+Theorem C06_grammar_bodies_are_wf :
+  forall (B : bytes) (lead : bool) (parts : list part) (epilogue : bytes) (k : nat),
+    contains_char N.eqb CR B = false ->
+    Forall (part_ok (token B)) parts ->
+    wf_prefix B (firstn k (mp_body B lead parts epilogue)).
+Proof. exact grammar_prefix_wf. Qed.
+Print Assumptions C06_grammar_bodies_are_wf.
+
+(* The property in its generative form: however a prefix of a grammar body is cut
+   into chunks, the parser delivers the reference result, and no error. *)
+Theorem C06_grammar_split_independent :
+  forall (B : bytes) (lead : bool) (parts : list part) (epilogue : bytes) (k : nat) (chunks : list bytes),
+    contains_char N.eqb CR B = false ->
+    Forall (part_ok (token B)) parts ->
+    concat chunks = firstn k (mp_body B lead parts epilogue) ->
+    markup_chunks B chunks = ref_obs B (firstn k (mp_body B lead parts epilogue))
+    /\ snd (markup_chunks B chunks) = None.
+Proof. exact grammar_split_independent. Qed.
+Print Assumptions C06_grammar_split_independent.
+
 (* ---- records of the repaired defects F6, F7 ---- *)
 
 (* F6: the old _eat_last_hyphen (slice of two bytes compared with one hyphen)
@@ -187,3 +221,15 @@ Proof. vm_compute. repeat split; reflexivity. Qed.
 Example C06_nonvacuous_suite_body :
   wf_prefix [45;45;45;45;87;101;98;75;105;116;70;111;114;109;66;111;117;110;100;97;114;121;101;80;107;112;70;70;55;116;106;66;65;113;120;50;57;76]%N (concat [[45;45;45;45;45;45;87]%N; [101;98;75;105;116;70;111]%N; [114;109;66;111;117;110;100]%N; [97;114;121;101;80;107;112]%N; [70;70;55;116;106;66;65]%N; [113;120;50;57;76;13;10]%N; [67;111;110;116;101;110;116]%N; [45;68;105;115;112;111;115]%N; [105;116;105;111;110;58;32]%N; [102;111;114;109;45;100;97]%N; [116;97;59;32;110;97;109]%N; [101;61;34;116;101;120;116]%N; [49;34;13;10;13;10;97]%N; [98;99;13;10;45;45;45]%N; [45;45;45;87;101;98;75]%N; [105;116;70;111;114;109;66]%N; [111;117;110;100;97;114;121]%N; [101;80;107;112;70;70;55]%N; [116;106;66;65;113;120;50]%N; [57;76;13;10;67;111;110]%N; [116;101;110;116;45;68;105]%N; [115;112;111;115;105;116;105]%N; [111;110;58;32;102;111;114]%N; [109;45;100;97;116;97;59]%N; [32;110;97;109;101;61;34]%N; [102;105;108;101;49;34;59]%N; [32;102;105;108;101;110;97]%N; [109;101;61;34;97;46;116]%N; [120;116;34;13;10;67;111]%N; [110;116;101;110;116;45;84]%N; [121;112;101;58;32;116;101]%N; [120;116;47;112;108;97;105]%N; [110;13;10;13;10;60;33]%N; [68;79;67;84;89;80;69]%N; [32;104;116;109;108;62;60]%N; [116;105;116;108;101;62;67]%N; [111;110;116;101;110;116;32]%N; [111;102;32;97;46;116;120]%N; [116;46;60;47;116;105;116]%N; [108;101;62;13;10;13;10]%N; [45;45;45;45;45;45;87]%N; [101;98;75;105;116;70;111]%N; [114;109;66;111;117;110;100]%N; [97;114;121;101;80;107;112]%N; [70;70;55;116;106;66;65]%N; [113;120;50;57;76;45;45]%N; [13;10]%N]) /\ length (fst (markup_chunks [45;45;45;45;87;101;98;75;105;116;70;111;114;109;66;111;117;110;100;97;114;121;101;80;107;112;70;70;55;116;106;66;65;113;120;50;57;76]%N [[45;45;45;45;45;45;87]%N; [101;98;75;105;116;70;111]%N; [114;109;66;111;117;110;100]%N; [97;114;121;101;80;107;112]%N; [70;70;55;116;106;66;65]%N; [113;120;50;57;76;13;10]%N; [67;111;110;116;101;110;116]%N; [45;68;105;115;112;111;115]%N; [105;116;105;111;110;58;32]%N; [102;111;114;109;45;100;97]%N; [116;97;59;32;110;97;109]%N; [101;61;34;116;101;120;116]%N; [49;34;13;10;13;10;97]%N; [98;99;13;10;45;45;45]%N; [45;45;45;87;101;98;75]%N; [105;116;70;111;114;109;66]%N; [111;117;110;100;97;114;121]%N; [101;80;107;112;70;70;55]%N; [116;106;66;65;113;120;50]%N; [57;76;13;10;67;111;110]%N; [116;101;110;116;45;68;105]%N; [115;112;111;115;105;116;105]%N; [111;110;58;32;102;111;114]%N; [109;45;100;97;116;97;59]%N; [32;110;97;109;101;61;34]%N; [102;105;108;101;49;34;59]%N; [32;102;105;108;101;110;97]%N; [109;101;61;34;97;46;116]%N; [120;116;34;13;10;67;111]%N; [110;116;101;110;116;45;84]%N; [121;112;101;58;32;116;101]%N; [120;116;47;112;108;97;105]%N; [110;13;10;13;10;60;33]%N; [68;79;67;84;89;80;69]%N; [32;104;116;109;108;62;60]%N; [116;105;116;108;101;62;67]%N; [111;110;116;101;110;116;32]%N; [111;102;32;97;46;116;120]%N; [116;46;60;47;116;105;116]%N; [108;101;62;13;10;13;10]%N; [45;45;45;45;45;45;87]%N; [101;98;75;105;116;70;111]%N; [114;109;66;111;117;110;100]%N; [97;114;121;101;80;107;112]%N; [70;70;55;116;106;66;65]%N; [113;120;50;57;76;45;45]%N; [13;10]%N])) = 5.
 Proof. vm_compute. split; reflexivity. Qed.
+
+(* the grammar hypotheses are satisfiable: two parts, data full of look-alikes *)
+Example C06_grammar_nonvacuous :
+  let B := [97;98;97;98]%N in
+  let parts := [([[107;58;32;118]], [13;10;45;45;97;98;13;10;45;45;97;98;97]);
+                ([[97]; [98;99]], [13])]%N in
+  Forall (part_ok (token B)) parts
+  /\ length (fst (ref_obs B (mp_body B true parts [13;10]%N))) = 5.
+Proof.
+  cbv zeta. split; [|vm_compute; reflexivity].
+  repeat constructor; cbn; try discriminate; try (intros H; repeat destruct H as [H|H]; try discriminate H; exact H).
+Qed.
